@@ -97,6 +97,22 @@ def check_add(run, F, prefix="R-CONTAINER"):
                        "search is %s" % tshow(f)[:200], site(b), key="%s|%s|search" % (prefix, ADD))
                 hit = opt_polarity(c)
                 hit_group = ("proj", f, "Some.0")
+        if hit is None:
+            # the search written as a loop: `for g in groups.iter_mut() { if g.tag == tag { ..; return } }` - found inside the loop (first match, in
+            # message order), not found when the loop ran to its end with the test false for every group
+            inl = [c for c in p.conds if c[0] == "if" and is_call(c[1], "<in-loop>") and c[2] is True and c[1][2] and
+                   is_call(c[1][2][0], "core::slice::<impl [T]>::iter_mut", "core::slice::<impl [T]>::iter") and groups_list(c[1][2][0][2][0])]
+            eqs = [c for c in p.conds if c[0] == "if" and c[2] is True and tag_eq_term(c[1], tag_p) and any(isinstance(x, tuple) and x[0] == "elem" for x in subterms(c[1]))]
+            if inl and eqs:
+                hit, hit_group = True, ("elem", inl[-1][1][2][0])
+                run.ob(prefix, "add: first-match search over the group list in message order [hit]", True, key="%s|%s|search" % (prefix, ADD))
+            else:
+                loops = [t for t in p.trace if is_call(t, "<for>") and is_call(t[2][0], "core::slice::<impl [T]>::iter_mut", "core::slice::<impl [T]>::iter") and groups_list(t[2][0][2][0])]
+                if len(loops) == 1 and loops[0][3].get("paths") and all(
+                        any(c[0] == "if" and c[2] is False and tag_eq_term(c[1], tag_p) for c in bp.conds) and not [x for x in bp.trace if is_call(x) and is_map_call(x[1])]
+                        for bp in loops[0][3]["paths"]):
+                    hit = False
+                    run.ob(prefix, "add: first-match search over the group list in message order [miss]", True, key="%s|%s|search" % (prefix, ADD))
         other_lookups = [t for t in calls if is_call(t) and t[1].split("::")[-1] in ("last", "last_mut", "rfind", "rposition", "rev", "max_by_key", "min_by_key", "first",
                                                                                         "first_mut", "nth") and
                          any(groups_list(x) for x in subterms(t))]
@@ -125,13 +141,15 @@ def check_add(run, F, prefix="R-CONTAINER"):
                 tgt = recv[2][0] if is_call(recv, "ipp::attribute::IppAttributeGroup::attributes_mut") else None
                 if tgt is None and isinstance(recv, tuple) and recv[0] == "field" and recv[2] == "attributes":
                     tgt = recv[1]           # `group.attributes` is what attributes_mut() hands out
-                okr = tgt is not None and ((tgt[0] == "proj" and is_call(tgt[1], "std::iter::Iterator::find")) or
+                okr = tgt is not None and ((tgt[0] == "proj" and is_call(tgt[1], "std::iter::Iterator::find")) or (tgt[0] == "elem" and tgt == hit_group) or
                                            (tgt[0] == "index" and groups_list(tgt[1]) and tgt[2][0] == "proj" and is_call(tgt[2][1], "std::iter::Iterator::position")))
                 run.ob(prefix, "add(hit): inserted into the found group", okr, "target %s" % tshow(recv)[:120], site(b, t[3]), key="%s|%s|hit-target" % (prefix, ADD))
                 pushes = [c for c in calls if c[1].endswith("::push") or c[1].endswith("Vec::<T, A>::insert")]
                 run.ob(prefix, "add(hit): group list unchanged", not pushes, [tshow(c)[:80] for c in pushes], site(b), key="%s|%s|hit-push" % (prefix, ADD))
             else:
                 newg = recv[2][0] if is_call(recv, "ipp::attribute::IppAttributeGroup::attributes_mut") else None
+                if newg is None and isinstance(recv, tuple) and recv[0] == "field" and recv[2] == "attributes":
+                    newg = recv[1]          # `new_group.attributes` is what attributes_mut() hands out
                 if isinstance(newg, tuple) and newg[0] == "index" and groups_list(newg[1]) and isinstance(newg[2], tuple) and newg[2][0] == "bin" and newg[2][1] == "Sub" and \
                         is_call(newg[2][2], "std::vec::Vec::<T, A>::len") and groups_list(newg[2][2][2][0]) and newg[2][3] == ("lit", 1):
                     # push(new group) first, then `groups[groups.len() - 1]`: the element just appended
